@@ -246,7 +246,7 @@ func (e2eFamily) Gen(n int, seed int64, mode, tier string) []interface{} {
 			out = append(out, s.in)
 		case "pipeline":
 			// C02: acknowledged publishes from the very first log entry on, 1-3 publishers and
-			// subscribers, QoS mix; i%8==7: a long run crossing the segment roll (500)
+			// subscribers, QoS mix; thorough: every 41st case a long run crossing the segment roll (500)
 			s := newScript(rng, 1)
 			np, nsub := 1+rng.Intn(3), 1+rng.Intn(3)
 			for j := 0; j < nsub; j++ {
@@ -258,7 +258,8 @@ func (e2eFamily) Gen(n int, seed int64, mode, tier string) []interface{} {
 				s.connect(0, fmt.Sprintf("pub%d", j), fmt.Sprintf("c-pub%d", j), "", 60, nil)
 			}
 			cnt := 1 + rng.Intn(12)
-			if i%8 == 7 && tier == "thorough" {
+			if i%41 == 7 && tier == "thorough" {
+				// (spread over the shards: 41 is coprime to the shard count)
 				cnt = 520
 			}
 			if rng.Intn(3) == 0 && nsub > 1 {
